@@ -97,6 +97,16 @@ def gen_graph(rng: random.Random, realistic: bool = False) -> nx.MultiDiGraph:
             add(b, a)                   # the other side of the street
     for _ in range(rng.randint(0, 2 * n)):
         add(rng.randrange(n), rng.randrange(n))
+    if not realistic and rng.random() < 0.2:
+        # an export that brings its own edge travel times (as osmnx does), faster than length / speed says on some
+        # streets, some streets without a speed at all (the network then assumes its default): the search runs on
+        # these times, and its estimate must stay below them
+        for _u, _v, d in g.edges(data=True):
+            base = d["length"] / 1000.0 / d["speed_kmph"] * 3600.0
+            d["travel_time"] = base * (rng.choice([1.0, 1.0, 0.7, 0.35, 0.2]) if rng.random() < 0.7 else rng.uniform(0.15, 1.0))
+            if rng.random() < 0.4:
+                del d["speed_kmph"]
+        g.graph["own_times"] = True
     return g
 
 
@@ -265,7 +275,8 @@ def gen_case(rng: random.Random, k: int) -> Dict[str, Any]:
             d = rng.choice([EntityPosition(lid, l1.end), EntityPosition(lid, rng.choice(line)), d])
         hqueries.append({"o": enc_pos(n, o), "d": enc_pos(n, d), "route": enc_route(n, hav.route(o, d))})
     return {"op": "router", "id": f"g{k}", "net": table, "queries": queries, "snaps": snaps, "hqueries": hqueries, "raised": raised,
-            "meta": {"nodes": g.number_of_nodes(), "links": len(table), "speeds": sorted({d["speed_kmph"] for _, _, d in g.edges(data=True)}),
+            "own_times": bool(g_raw.graph.get("own_times", False)),
+            "meta": {"own_times": bool(g_raw.graph.get("own_times", False)), "nodes": g.number_of_nodes(), "links": len(table), "speeds": sorted({d["speed_kmph"] for _, _, d in g.edges(data=True)}),
                      "kinds": sorted({x["kind"] for x in queries})}}
 
 
